@@ -6,7 +6,8 @@
 //! many partial writes and reads return fragments; the simulated kernel decides when readiness is
 //! reported to which side (late, out of order, after interrupted waits), on the io_uring driver
 //! (`PollAdd`) or the polling driver. Client and server each send a generated list of text/binary
-//! messages (sizes 0 .. 70 KB) while receiving the other's, then close.
+//! messages (sizes 0 .. 70 KB) while receiving the other's, then close. The sending and the receiving half
+//! of each side (`StreamExt::split`) run in one task or in two tasks of their own.
 
 use std::{rc::Rc, time::Duration};
 
@@ -61,9 +62,11 @@ fn ws_echo() -> RunResult {
     let (from_client, from_server) = (gen_msgs("client"), gen_msgs("server"));
     let bufsize = [2048i32, 4096, 65536][sim::choose("sockbuf", 3)];
     let client_closes = sim::flip("client.closes", 1, 2);
+    // the two halves of a `split()` live in one task (join!) or in two tasks with wakers of their own
+    let two_tasks = sim::flip("two.tasks", 1, 2);
     let capacity = 1u32 << sim::range("ring.capacity.log2", 0, 4);
     let seed = sim::subseed("payload");
-    sim::log(|| format!("ring capacity {capacity}, socket buffers {bufsize}; client sends {from_client:?}, server sends {from_server:?}; {} closes; {cfg:?}", if client_closes { "client" } else { "server" }));
+    sim::log(|| format!("ring capacity {capacity}, socket buffers {bufsize}; client sends {from_client:?}, server sends {from_server:?}; {} closes; halves in {}; {cfg:?}", if client_closes { "client" } else { "server" }, if two_tasks { "two tasks" } else { "one task" }));
     let errs = Errs::default();
     let end = run_on_kernel(cfg, {
         let (errs, from_client, from_server) = (errs.clone(), from_client.clone(), from_server.clone());
@@ -142,7 +145,13 @@ fn ws_echo() -> RunResult {
                             errs3.push("ws-content", format!("{name}: received {k} of the {} messages the peer sent before the connection ended", theirs.len()));
                         }
                     };
-                    futures_util::join!(sender, receiver);
+                    if two_tasks {
+                        let (a, b) = (compio_runtime::spawn(sender), compio_runtime::spawn(receiver));
+                        let _ = a.await;
+                        let _ = b.await;
+                    } else {
+                        futures_util::join!(sender, receiver);
+                    }
                 };
                 let c = compio_runtime::spawn(run_side("client", client, from_client.clone(), from_server.clone(), seed, seed ^ 0x5555, client_closes, c_errs));
                 let s = compio_runtime::spawn(run_side("server", server, from_server.clone(), from_client.clone(), seed ^ 0x5555, seed, !client_closes, s_errs));
